@@ -189,12 +189,16 @@ func GenCase[T any](m *Mod[T], r *rng.R, prefix string, id int, reuseHeavy bool)
 }
 
 // Run executes the case on the implementation.
-func Run[T any](m *Mod[T], c Case[T], probe bool) []Obs[T] {
+func Run[T any](m *Mod[T], c Case[T], probe bool) []Obs[T] { return RunHooked(m, c, probe, nil) }
+
+// RunHooked is Run with a callback after every operation (and its observation): the C14 harness
+// sends traffic there.
+func RunHooked[T any](m *Mod[T], c Case[T], probe bool, after func(k int)) []Obs[T] {
 	ctrlProv := map[interface{}]Cid{}
 	statProv := map[interface{}]Cid{}
 	eff := int64(0)
 	var out []Obs[T]
-	for _, o := range c.Ops {
+	for k, o := range c.Ops {
 		var ob Obs[T]
 		func() {
 			defer func() {
@@ -259,6 +263,9 @@ func Run[T any](m *Mod[T], c Case[T], probe bool) []Obs[T] {
 			eff++
 		}
 		out = append(out, ob)
+		if after != nil {
+			after(k)
+		}
 	}
 	if probe && m.Probe != nil {
 		last := &out[len(out)-1]
